@@ -11,7 +11,8 @@ import (
 // C01 fragment stream: programs of MiniGo (coq/Core/Syntax.v), rendered from one AST both as Go source
 // (run by yaegi and by the compiled binary) and as a Gallina term (run by the models Y = Cfg.run and
 // G = GoSem.run inside Coq). The main part stays inside the proved fragment (wf_program); small
-// region parts leave it through exactly one clause (loopvar-assign, for-init-only, loop-empty-body).
+// region parts leave it through exactly one clause (loopvar-assign, for-init-only, loop-empty-body,
+// switch-default-order, switch-init-tag, switch-case-list).
 
 type mgA struct { // integer expression
 	k    string // lit var neg bin
@@ -41,6 +42,16 @@ type mgS struct {
 	body  []*mgS
 	els   []*mgS
 	hasEl bool
+	tag   *mgA   // switch: nil = no tag
+	cls   []*mgC // switch: the clauses
+}
+
+type mgC struct { // case clause
+	def   bool
+	ints  []*mgA
+	bools []*mgB
+	body  []*mgS
+	ft    bool
 }
 
 var mgGoOp = map[string]string{"Add": "+", "Sub": "-", "Mul": "*", "Quo": "/", "Rem": "%", "And": "&", "Or": "|", "Xor": "^",
@@ -171,6 +182,34 @@ func (s *mgS) goSrc(ind string, b *strings.Builder) {
 		b.WriteString("{\n")
 		mgBlockGo(s.body, ind+"\t", b)
 		b.WriteString(ind + "}\n")
+	case "switch":
+		b.WriteString(ind + "switch ")
+		if s.init != nil {
+			b.WriteString(mgSimpleGo(s.init) + "; ")
+		}
+		if s.tag != nil {
+			b.WriteString(s.tag.goSrc() + " ")
+		}
+		b.WriteString("{\n")
+		for _, c := range s.cls {
+			var es []string
+			for _, e := range c.ints {
+				es = append(es, e.goSrc())
+			}
+			for _, e := range c.bools {
+				es = append(es, e.goSrc())
+			}
+			if c.def {
+				b.WriteString(ind + "default:\n")
+			} else {
+				b.WriteString(ind + "case " + strings.Join(es, ", ") + ":\n")
+			}
+			mgBlockGo(c.body, ind+"\t", b)
+			if c.ft {
+				b.WriteString(ind + "\tfallthrough\n")
+			}
+		}
+		b.WriteString(ind + "}\n")
 	}
 }
 
@@ -219,6 +258,31 @@ func (s *mgS) coq() string {
 			c = "(Some " + s.c.coq() + ")"
 		}
 		return "(SFor " + mgOptCoq(s.init) + " " + c + " " + mgOptCoq(s.post) + " " + mgListCoq(s.body) + ")"
+	case "switch":
+		tag := "None"
+		if s.tag != nil {
+			tag = "(Some " + s.tag.coq() + ")"
+		}
+		var cl []string
+		for _, c := range s.cls {
+			ce := "CDefault"
+			if !c.def {
+				var es []string
+				for _, e := range c.ints {
+					es = append(es, e.coq())
+				}
+				for _, e := range c.bools {
+					es = append(es, e.coq())
+				}
+				if s.tag != nil {
+					ce = "(CInts [" + strings.Join(es, "; ") + "])"
+				} else {
+					ce = "(CBools [" + strings.Join(es, "; ") + "])"
+				}
+			}
+			cl = append(cl, "(SCase "+ce+" "+mgListCoq(c.body)+" "+coqBool(c.ft)+")")
+		}
+		return "(SSwitch " + mgOptCoq(s.init) + " " + tag + " [" + strings.Join(cl, "; ") + "])"
 	}
 	return "SBreak"
 }
@@ -231,6 +295,7 @@ type mgGen struct {
 	scopes  [][]int      // visible variables per block
 	prot    map[int]bool // variables generated statements must not assign (loop variables, counters)
 	inLoop  int
+	inSw    int
 	mult    int
 	feat    map[string]int
 	region  string // region to leave the fragment through ("" = stay inside)
@@ -433,12 +498,21 @@ func (g *mgGen) stmt(depth int) []*mgS {
 			if g.r.bool() {
 				j = "continue"
 			}
+			if g.inSw > 0 {
+				g.feat["frag-switch-"+j]++
+			}
 			return []*mgS{{k: "if", c: g.bexp(1), body: []*mgS{{k: j}}}}
 		}
+		if g.inLoop == 0 && g.inSw > 0 && g.r.chance(15) {
+			g.feat["frag-switch-break"]++
+			return []*mgS{{k: "if", c: g.bexp(1), body: []*mgS{{k: "break"}}}}
+		}
 		return []*mgS{g.simple()}
-	case k < 70:
+	case k < 66:
 		return []*mgS{g.ifStmt(depth)}
-	case k < 93:
+	case k < 80:
+		return []*mgS{g.switchStmt(depth)}
+	case k < 94:
 		return g.forStmt(depth)
 	default:
 		g.feat["frag-block"]++
@@ -473,6 +547,143 @@ func (g *mgGen) ifStmt(depth int) *mgS {
 		g.feat["frag-if-else"]++
 	} else {
 		g.feat["frag-if"]++
+	}
+	g.scopes = g.scopes[:len(g.scopes)-1]
+	return s
+}
+
+// switchStmt: the main stream stays where yaegi agrees with Go (default clause last, a tag that follows an
+// init statement is a plain variable, only the first expression of a clause is an operator expression,
+// one condition per clause without a tag, at least one clause, no fallthrough into an empty default);
+// a region leaves through exactly one of these.
+func (g *mgGen) switchStmt(depth int) *mgS {
+	s := &mgS{k: "switch"}
+	g.scopes = append(g.scopes, nil)
+	region := ""
+	if !g.regDone && strings.HasPrefix(g.region, "switch-") {
+		region = g.region
+		g.regDone = true
+	}
+	tagged := g.r.chance(60)
+	initVar := -1
+	if g.r.chance(30) || region == "switch-init-tag" {
+		initVar = g.fresh()
+		s.init = &mgS{k: "define", x: initVar, e: &mgA{k: "bin", op: "And", a: g.aexp(1), b: lit(3)}}
+		if s.init.e.a.k == "lit" {
+			s.init.e.a = g.avar()
+		}
+		g.declare(initVar)
+		g.feat["frag-switch-init"]++
+	}
+	if region == "switch-init-tag" {
+		tagged = true
+	}
+	if tagged {
+		switch {
+		case region == "switch-init-tag":
+			s.tag = &mgA{k: "bin", op: g.r.pick([]string{"Add", "Xor", "Sub"}), a: vr(initVar), b: lit(1 + g.r.intn(2))}
+		case initVar >= 0:
+			s.tag = vr(initVar)
+		case g.r.chance(25):
+			s.tag = g.avar()
+		default:
+			a := g.aexp(1)
+			if a.k == "lit" {
+				a = g.avar()
+			}
+			s.tag = &mgA{k: "bin", op: "And", a: a, b: lit(3)}
+		}
+		g.feat["frag-switch-tag"]++
+	} else {
+		g.feat["frag-switch-notag"]++
+	}
+	nc := 1 + g.r.intn(4)
+	hasDef := g.r.chance(60) || strings.HasPrefix(region, "switch-default")
+	defPos := nc
+	if region == "switch-default-order" {
+		nc = 2 + g.r.intn(3)
+		defPos = g.r.intn(nc)
+	}
+	usedLit := map[int]bool{}
+	freshLit := func() *mgA {
+		for {
+			z := g.r.intn(6 + len(usedLit))
+			if !usedLit[z] {
+				usedLit[z] = true
+				return lit(z)
+			}
+		}
+	}
+	usedBLit := false
+	listDone := false
+	total := nc
+	if hasDef {
+		total = nc + 1
+	}
+	for i, ci := 0, 0; i < total; i++ {
+		c := &mgC{}
+		if hasDef && i == defPos {
+			c.def = true
+			g.feat["frag-switch-default"]++
+		} else if tagged {
+			// first expression: a literal, or an operator expression / variable
+			if g.r.chance(65) {
+				c.ints = append(c.ints, freshLit())
+			} else {
+				c.ints = append(c.ints, g.aexp(1))
+				if c.ints[0].k == "lit" {
+					c.ints[0] = g.avar()
+				}
+			}
+			if ci == 0 && initVar >= 0 && s.tag.k != "var" {
+				c.ints[0] = vr(initVar)
+			}
+			for len(c.ints) < 3 && g.r.chance(30) {
+				// further expressions: plain variables and literals only (region switch-case-list otherwise)
+				if g.r.bool() && len(usedLit) < 5 {
+					c.ints = append(c.ints, freshLit())
+				} else {
+					c.ints = append(c.ints, g.avar())
+				}
+				g.feat["frag-case-list"]++
+			}
+			if region == "switch-case-list" && !listDone {
+				listDone = true
+				a := g.avar()
+				c.ints = append(c.ints, &mgA{k: "bin", op: g.r.pick([]string{"And", "Sub", "Add"}), a: a, b: lit(1 + g.r.intn(3))})
+			}
+			ci++
+		} else {
+			if !usedBLit && g.r.chance(10) {
+				usedBLit = true
+				c.bools = append(c.bools, &mgB{k: "lit", v: g.r.bool()})
+			} else {
+				c.bools = append(c.bools, g.bexp(1))
+			}
+			if ci == 0 && initVar >= 0 {
+				cm := g.cmp(1)
+				cm.a = vr(initVar)
+				c.bools[0] = cm
+			}
+			if region == "switch-case-list" && !listDone {
+				listDone = true
+				c.bools = append(c.bools, g.cmp(1))
+			}
+			ci++
+		}
+		g.inSw++
+		if !c.def && g.r.chance(10) {
+			c.body = nil
+			g.feat["frag-case-empty"]++
+		} else {
+			c.body = g.block(1+g.r.intn(2), depth-1, nil)
+		}
+		g.inSw--
+		if i < total-1 && g.r.chance(22) {
+			c.ft = true
+			g.feat["frag-fallthrough"]++
+		}
+		s.cls = append(s.cls, c)
 	}
 	g.scopes = g.scopes[:len(g.scopes)-1]
 	return s
@@ -614,6 +825,9 @@ func mgProgram(r *rng, region string) (goSrc, coq string, feat map[string]int, o
 	for i := 0; i < n; i++ {
 		body = append(body, g.stmt(3)...)
 	}
+	if region != "" && !g.regDone && strings.HasPrefix(region, "switch-") {
+		body = append(body, g.switchStmt(2))
+	}
 	if region != "" && !g.regDone {
 		// force one loop that carries the region
 		body = append(body, g.forStmt(2)...)
@@ -641,7 +855,7 @@ func c1FragmentCases(r *rng, n int) []*c1case {
 	if n > 1000 {
 		nreg = 40
 	}
-	for _, reg := range []string{"loopvar-assign", "for-init-only", "loop-empty-body"} {
+	for _, reg := range []string{"loopvar-assign", "for-init-only", "loop-empty-body", "switch-default-order", "switch-init-tag", "switch-case-list"} {
 		for i := 0; i < nreg; i++ {
 			src, cq, feat, ok := mgProgram(r.fork(), reg)
 			if !ok {
